@@ -41,7 +41,7 @@ def run_case(case):
     -> dict(records=[{where, mode, line, impl:{medium: line}|'err:unsavable'}], failures=[...], hist={...})"""
     common.ensure_repo_on_path()
     import asyncio
-    from harness import persist_gen as pg
+    from harness import persist_gen as pg, detloop
     import plumpy
     from plumpy import loaders
 
@@ -167,7 +167,8 @@ def run_case(case):
             where, mode, impl = rec['where'], rec['mode'], {}
             for mi, m in enumerate(pg.MEDIA):
                 loop = asyncio.new_event_loop()
-                asyncio.set_event_loop(loop)
+                # the loading thread's current loop: the one handed to the load, another one, or none at all
+                detloop.use_loop(loop, foreign=(False, True, 'none')[(mi + len(records)) % 3])
                 try:
                     arrived = pg.flat_bundle(rec['copies'][m])
                     if arrived != rec['flat']:
